@@ -42,7 +42,7 @@ META = {
                    "writer, cursor start offsets 0 / -1. Equality with a reference scheduler is NOT decided."
                    " Also: resolution of the key function wherever it lives and its scenario argument, container roll-up before the first and between a placement and the next readiness scan, clearing of the mid-slot offset when the cursor moves, and the shared clauses of C04 (bound accumulator), C03 (team gate, booking guard) and C05 (period index)."
                    " Round 3: roll-up order (C10), limit-copy completeness (C05) and the process-state rule are evaluated as necessary conditions of equality with the reference schedule."
-                   " Round 4: edge set incl. nothing dropped, inherited edges keep identity.",
+                   " Round 4: edge set incl. nothing dropped, inherited edges keep identity. Round 8: nothing that varies with the task is compared before the priority in the sort key; readiness is granted only on a path through the loop over all edges (dominators).",
     "assumptions": [],
 }
 
